@@ -90,12 +90,14 @@ func outputTupleDir(v rel.Value, dir string, fs afero.Fs, dryRun bool) error {
 	if err != nil {
 		return err
 	}
-	if _, err := fs.Stat(dir); os.IsNotExist(err) {
+	if info, err := fs.Stat(dir); os.IsNotExist(err) {
 		if err := fs.Mkdir(dir, 0755); err != nil {
 			return err
 		}
 	} else if err != nil {
 		return err
+	} else if !info.IsDir() {
+		return fmt.Errorf("%s exists and is not a directory", dir)
 	}
 
 	// this is to allow empty directory
@@ -149,6 +151,14 @@ func outputFile(content rel.Value, path string, fs afero.Fs, dryRun bool) (err e
 			return fmt.Errorf("file output not string or byte array: %v", content)
 		}
 		bytes = []byte{}
+	}
+
+	if info, err := fs.Stat(path); err == nil {
+		if info.IsDir() {
+			return fmt.Errorf("%s exists and is a directory", path)
+		}
+	} else if !os.IsNotExist(err) {
+		return err
 	}
 
 	if dryRun {
